@@ -8,9 +8,10 @@ For every generated case, both solvers (superdtl, base_uspfs) and both retention
   object node (pre-order index), every species and both kinds, equal the model's;
 * under ALL also the TAG SETS (`infos()`, as pairs of (species path, kind)) of every cell are equal,
   and the result (cost, set of solutions) of the public solver equals the model's;
-* under ANY the model follows the code's offering order (level-order species traversal, candidates in
-  source order; every entry holds at most one tag, so no set iteration order is involved): the single
-  tag of every cell and the single returned solution are compared for equality as well.
+* under ANY the code may keep ANY optimal tag (which one depends on the order in which species and candidates
+  are offered — an unspecified implementation detail), so the relation compared is the property's own:
+  equal VALUES, at most one tag per cell and that tag is one of the tags of the model's ALL table, at most one
+  returned solution, of the ALL cost, member of the model's ALL result, empty iff the ALL result is empty.
 
 Any difference is a broken tie (`res.tie_broken`), never a violation: this module compares the
 implementation with a model, the property itself is judged by c03.py.
@@ -73,62 +74,85 @@ def model_rows(out):
     return {(r[0], r[1], r[2]): (r[3], sorted(r[4])) for r in out["table"]}
 
 
-def compare(res, case, algo, policy, impl, real, model):
-    """impl: run_algo result; real: real_table rows; model: driver output."""
+def compare(res, case, algo, policy, impl, real, model, model_all=None):
+    """impl: run_algo result; real: real_table rows; model: driver output for `policy`;
+    model_all: driver output for the policy ALL (needed for the membership relation under ANY)."""
     what = f"{algo}/{policy}"
+    info = {"case": case, "algo": algo, "policy": policy}
     mrows = model_rows(model)
     if set(mrows) != set(real):
-        res.tie_broken(f"c03_uspfscode {what}: table key sets differ", {"case": case, "algo": algo, "policy": policy},
-                       len(mrows), len(real))
+        res.tie_broken(f"c03_uspfscode {what}: table key sets differ", info, len(mrows), len(real))
         return False
+    arows = model_rows(model_all) if (policy == "any" and model_all is not None) else None
     ok = True
     for key in sorted(real):
         rv, rt = real[key]
         mv, mt = mrows[key]
         if rv != mv:
             res.tie_broken(f"c03_uspfscode {what}: table value at (object #{key[0]}, species '{key[1]}', {key[2]})",
-                           {"case": case, "algo": algo, "policy": policy}, mv, rv)
+                           info, mv, rv)
             ok = False
             break
-        if rt != mt:
+        if policy == "all":
+            bad_tags = rt != mt
+        else:
+            # ANY: any one of the optimal tags (never compared by equality with the model's own pick)
+            alltags = arows[key][1] if arows is not None else None
+            bad_tags = len(rt) > 1 or (alltags is not None and
+                                       (not all(t in alltags for t in rt) or bool(rt) != bool(alltags)))
+            if alltags is not None and (len(mt) > 1 or not all(t in alltags for t in mt)):
+                res.tie_broken(f"c03_uspfscode {what}: the model's 'any' tag is not among its 'all' tags", info, alltags, mt)
+                ok = False
+                break
+        if bad_tags:
             res.tie_broken(f"c03_uspfscode {what}: table tags at (object #{key[0]}, species '{key[1]}', {key[2]})",
-                           {"case": case, "algo": algo, "policy": policy}, mt, rt)
+                           info, (mt if policy == "all" else alltags), rt)
             ok = False
             break
     if "err" in impl:
-        res.tie_broken(f"c03_uspfscode {what}: implementation raises {impl['err']}", {"case": case, "algo": algo, "policy": policy},
+        res.tie_broken(f"c03_uspfscode {what}: implementation raises {impl['err']}", info,
                        model["cost"], impl.get("msg"))
         return False
     ki = sorted(solution_key(s) for s in impl["sols"])
     km = sorted(solution_key(s) for s in model["sols"])
-    if impl["cost"] != model["cost"] or ki != km:
-        res.tie_broken(f"c03_uspfscode {what}: (cost, solutions) of the solver", {"case": case, "algo": algo, "policy": policy},
-                       {"cost": model["cost"], "n": len(km)}, {"cost": impl["cost"], "n": len(ki)})
-        ok = False
+    if policy == "all":
+        if impl["cost"] != model["cost"] or ki != km:
+            res.tie_broken(f"c03_uspfscode {what}: (cost, solutions) of the solver", info,
+                           {"cost": model["cost"], "n": len(km)}, {"cost": impl["cost"], "n": len(ki)})
+            ok = False
+    elif model_all is not None:
+        ka = set(solution_key(s) for s in model_all["sols"])
+        if len(ki) > 1 or (not ki) != (not ka) or not set(ki) <= ka or (ki and impl["cost"] != model_all["cost"]):
+            res.tie_broken(f"c03_uspfscode {what}: 'any' result is not one member of the model's 'all' result", info,
+                           {"cost": model_all["cost"], "n": len(ka)}, {"cost": impl["cost"], "n": len(ki)})
+            ok = False
+        if len(km) > 1 or (not km) != (not ka) or not set(km) <= ka:
+            res.tie_broken(f"c03_uspfscode {what}: the model's 'any' result is not one member of its 'all' result", info)
+            ok = False
     return ok
 
 
-def run_code(ctx, res, quick=150, thorough=1500):
-    """Deep tie of the code-structured model; call from c03.run after the main stream."""
-    # The tie looks INSIDE the implementation (`_compute_gain_sets`, `_compute_lca_sets`, `_compute_uspfs_table`
-    # and the table's layout).  Refactored away -> unavailable: a note, not an alarm (the public-API
-    # correspondence of the C03 check still decides).
-    try:
-        real_table({"S": [[], []], "O": [{"s": "0", "f": [0]}, {"s": "1", "f": [0]}],
-                    "costs": {"spe": 0, "dup": 1, "hgt": 1, "floss": 1, "sloss": 1}}, "superdtl", "all")
-    except Exception as e:  # noqa
-        res.notes.append(f"table-level tie (c03_code) unavailable: internals changed ({type(e).__name__}: {str(e)[:120]})")
-        res.dist["code-table tie unavailable"] += 1
-        return
-    n = ctx.budget(quick, thorough)
-    cases = [solvers.unordered_case(ctx, ctx.rng, 5, 4, 4) for _ in range(n)]
+PROBES = [
+    {"S": [[], []], "O": [{"s": "0", "f": [0]}, {"s": "1", "f": [0]}],
+     "costs": {"spe": 0, "dup": 1, "hgt": 1, "floss": 1, "sloss": 1}},
+    {"S": [[[], []], []], "O": [[{"s": "00", "f": [0, 1]}, {"s": "1", "f": [1]}], {"s": "01", "f": [0]}],
+     "costs": {"spe": 1, "dup": 1, "hgt": 1, "floss": 1, "sloss": 1}},
+]
+
+
+def _compare_cases(ctx, res, cases, count=True):
     items = [(c, a, p) for c in cases for a in ALGOS for p in ("all", "any")]
     reqs = [{"op": "c03_uspfscode", "algo": a, "policy": p, **solvers.lean_case(c)} for c, a, p in items]
     outs = ctx.driver.parallel(reqs)
+    last_all = None
     for (case, algo, policy), model in zip(items, outs):
+        if policy == "all":
+            last_all = model
         impl = solvers.strip(run_algo(case, algo, policy))
         real = real_table(case, algo, policy)
-        ok = compare(res, case, algo, policy, impl, real, model)
+        ok = compare(res, case, algo, policy, impl, real, model, last_all)
+        if not count:
+            continue
         finite = sum(1 for v, _ in real.values() if v != "inf")
         multi = sum(1 for _, t in real.values() if len(t) > 1)
         res.case({"case": case, "algo": algo, "policy": policy, "deep": True},
@@ -137,3 +161,25 @@ def run_code(ctx, res, quick=150, thorough=1500):
         res.dist["code-table cells finite"] += finite
         if policy == "all":
             res.dist["code-table cells with >=2 tags"] += multi
+
+
+def run_code(ctx, res, quick=150, thorough=1500):
+    """Deep tie of the code-structured model; call from c03.run after the main stream."""
+    # The tie looks INSIDE the implementation (`_compute_gain_sets`, `_compute_lca_sets`, `_compute_uspfs_table`
+    # and the layout of its private table).  Self-test on fixed probe inputs: if the hooks fail OR the
+    # canonicalised real table differs from the model's there, the internals were refactored -> unavailable:
+    # a note, not an alarm (the public-API correspondence of the C03 check still decides).
+    from ..common import Result
+
+    try:
+        scratch = Result()
+        _compare_cases(ctx, scratch, PROBES, count=False)
+        if scratch.mismatch:
+            raise RuntimeError("probe: " + scratch.mismatch[0]["relation"])
+    except Exception as e:  # noqa
+        res.notes.append(f"table-level tie (c03_code) unavailable: internals changed ({type(e).__name__}: {str(e)[:160]})")
+        res.dist["code-table tie unavailable"] += 1
+        return
+    n = ctx.budget(quick, thorough)
+    cases = [solvers.unordered_case(ctx, ctx.rng, 5, 4, 4) for _ in range(n)]
+    _compare_cases(ctx, res, cases)
